@@ -27,6 +27,7 @@ type GenCfg struct {
 	CollLimits []uint32     // C12
 	NondetPct int
 	DigRoots  bool // C12: one root map with a generated digester
+	DigRootsPct int // percentage of cases whose root maps get a generated digester
 }
 
 func weighted(t *rapid.T, w map[string]int, label string) string {
@@ -167,6 +168,13 @@ func (g *GenCfg) genCase(t *rapid.T, prop string) *Case {
 		c.Cfg.Roots = []RootSpec{{K: "map", Addr: 1, TI: 2, Dig: genDigSpec(t)}}
 	} else {
 		c.Cfg.Roots = append([]RootSpec(nil), g.Roots[rapid.IntRange(0, len(g.Roots)-1).Draw(t, "roots")]...)
+		if g.DigRootsPct > 0 && rapid.IntRange(0, 99).Draw(t, "digroots") < g.DigRootsPct {
+			for i := range c.Cfg.Roots {
+				if c.Cfg.Roots[i].K == "map" {
+					c.Cfg.Roots[i].Dig = genDigSpec(t)
+				}
+			}
+		}
 	}
 	if len(g.CollLimits) > 0 {
 		c.Cfg.CollSet = true
